@@ -34,6 +34,63 @@ type e2eCase struct {
 	// Perm: seed of the permutation used for the batching-invariance companion; Extra: unrelated fields added in the second companion
 	Perm  uint64         `json:"perm"`
 	Extra []modbus.Field `json:"extra"`
+	// Fluent: the fields are added through the builder's typed methods (Bit, Uint16, String, ... with
+	// ServerAddress/UnitID/ByteOrder/Name setters and builder defaults) instead of AddAll
+	Fluent bool `json:"fluent,omitempty"`
+}
+
+// addFluent adds f through the public fluent API; the resulting definition must be f itself.
+func addFluent(b *modbus.Builder, f modbus.Field, useDefaults bool) {
+	var bf *modbus.BField
+	switch f.Type {
+	case modbus.FieldTypeBit:
+		bf = b.Bit(f.Address, f.Bit)
+	case modbus.FieldTypeByte:
+		bf = b.Byte(f.Address, f.FromHighByte)
+	case modbus.FieldTypeUint8:
+		bf = b.Uint8(f.Address, f.FromHighByte)
+	case modbus.FieldTypeInt8:
+		bf = b.Int8(f.Address, f.FromHighByte)
+	case modbus.FieldTypeUint16:
+		bf = b.Uint16(f.Address)
+	case modbus.FieldTypeInt16:
+		bf = b.Int16(f.Address)
+	case modbus.FieldTypeUint32:
+		bf = b.Uint32(f.Address)
+	case modbus.FieldTypeInt32:
+		bf = b.Int32(f.Address)
+	case modbus.FieldTypeUint64:
+		bf = b.Uint64(f.Address)
+	case modbus.FieldTypeInt64:
+		bf = b.Int64(f.Address)
+	case modbus.FieldTypeFloat32:
+		bf = b.Float32(f.Address)
+	case modbus.FieldTypeFloat64:
+		bf = b.Float64(f.Address)
+	case modbus.FieldTypeString:
+		bf = b.String(f.Address, f.Length)
+	case modbus.FieldTypeCoil:
+		bf = b.Coil(f.Address)
+	}
+	if !useDefaults {
+		bf = bf.ServerAddress(f.ServerAddress).UnitID(f.UnitID)
+	}
+	b.Add(bf.ByteOrder(f.ByteOrder).Name(f.Name))
+}
+
+// canonical clears the attributes a typed builder method does not take (they are irrelevant for the field's type).
+func canonical(f modbus.Field) modbus.Field {
+	switch f.Type {
+	case modbus.FieldTypeBit:
+		f.FromHighByte, f.Length = false, 0
+	case modbus.FieldTypeByte, modbus.FieldTypeUint8, modbus.FieldTypeInt8:
+		f.Bit, f.Length = 0, 0
+	case modbus.FieldTypeString:
+		f.Bit, f.FromHighByte = 0, false
+	default:
+		f.Bit, f.FromHighByte, f.Length = 0, false, 0
+	}
+	return f
 }
 
 func devSeed(base uint64, server string, unit uint8) uint64 {
@@ -42,8 +99,17 @@ func devSeed(base uint64, server string, unit uint8) uint64 {
 	return h.Sum64()
 }
 
-func build(fields []modbus.Field, fc uint8, f spec.Framing) ([]modbus.BuilderRequest, error) {
-	b := modbus.NewRequestBuilder("", 0).AddAll(fields)
+func build(fields []modbus.Field, fc uint8, f spec.Framing, fluent bool) ([]modbus.BuilderRequest, error) {
+	b := modbus.NewRequestBuilder("", 0)
+	if fluent && len(fields) > 0 {
+		// builder defaults = the first field's target; fields of that target rely on the defaults
+		b = modbus.NewRequestBuilder(fields[0].ServerAddress, fields[0].UnitID)
+		for _, fd := range fields {
+			addFluent(b, fd, fd.ServerAddress == fields[0].ServerAddress && fd.UnitID == fields[0].UnitID)
+		}
+	} else {
+		b.AddAll(fields)
+	}
 	switch {
 	case fc == 3 && f == spec.TCP:
 		return b.ReadHoldingRegistersTCP()
@@ -67,7 +133,13 @@ func key(f modbus.Field) string {
 
 // exchange runs the whole pipeline and checks every field against device memory. It returns the per-definition values.
 func exchange(c e2eCase, fields []modbus.Field) (map[string][]string, int, string, error) {
-	reqs, err := build(fields, c.FC, c.Framing)
+	if c.Fluent {
+		fields = append([]modbus.Field(nil), fields...)
+		for i := range fields {
+			fields[i] = canonical(fields[i])
+		}
+	}
+	reqs, err := build(fields, c.FC, c.Framing, c.Fluent)
 	if err != nil {
 		return nil, 0, "", fmt.Errorf("builder refused valid field definitions: %v", err)
 	}
@@ -232,6 +304,9 @@ func runE2E(c e2eCase) harness.Result {
 		return harness.Result{Err: err, NonTrivial: true}
 	}
 	labels := []string{fmt.Sprintf("fc%d", c.FC), c.Framing.String(), fmt.Sprintf("requests:%d", min(nreq, 4))}
+	if c.Fluent {
+		labels = append(labels, "fluent-api")
+	}
 	if info != "" {
 		labels = append(labels, info)
 	}
@@ -254,6 +329,9 @@ func runE2E(c e2eCase) harness.Result {
 		if len(c.Extra) > 0 {
 			ex := map[string]bool{}
 			for _, f := range c.Extra {
+				if c.Fluent {
+					f = canonical(f)
+				}
 				ex[key(f)] = true
 			}
 			r3, _, _, err := exchange(c, append(append([]modbus.Field(nil), c.Fields...), c.Extra...))
@@ -306,7 +384,9 @@ var servers = []string{"plc1:502", "plc_2:502", "rtu://dev"}
 
 func genFields(t *rapid.T, n int, prefix string, nServers int, base int) []modbus.Field {
 	var out []modbus.Field
-	units := []uint8{0, 1, 2, 255}
+	units := []uint8{0, 1, 2, 255, 247, 128}
+	rot := rapid.IntRange(0, len(units)-1).Draw(t, prefix+"unit_rot")
+	units = append(units[rot:], units[:rot]...)
 	nUnits := rapid.IntRange(1, 3).Draw(t, prefix+"nunits")
 	for i := 0; i < n; i++ {
 		off := rapid.IntRange(0, 140).Draw(t, "off")
@@ -334,7 +414,7 @@ func genFields(t *rapid.T, n int, prefix string, nServers int, base int) []modbu
 
 func genE2E(t *rapid.T) e2eCase {
 	c := e2eCase{FC: rapid.SampledFrom([]uint8{3, 4}).Draw(t, "fc"), Framing: gen.Framing(t), Lenient: rapid.Bool().Draw(t, "lenient"),
-		Seed: rapid.Uint64().Draw(t, "seed"), Perm: rapid.Uint64().Draw(t, "perm")}
+		Seed: rapid.Uint64().Draw(t, "seed"), Perm: rapid.Uint64().Draw(t, "perm"), Fluent: rapid.IntRange(0, 2).Draw(t, "fluent") == 0}
 	n := rapid.IntRange(1, 14).Draw(t, "nfields")
 	if rapid.IntRange(0, 7).Draw(t, "many") == 0 {
 		n = rapid.IntRange(15, 40).Draw(t, "nfields_many")
